@@ -21,8 +21,8 @@ package webtransport
 //@ func (*Conn).read(n)
 //@   props C14, C15, C09
 //@   requires c != nil && c.br != nil && n >= 0
-//@   modifies c.br.$pos, c.br.$buffered
-//@   ensures len(result0) <= n
+//@   modifies c.br.$pos, c.br.$buffered, Mem(c.br.$peek)
+//@   ensures len(result0) <= n && backing(result0) == c.br.$peek   // a view of the reader's buffer: valid until the next read
 //@   ensures err == nil ==> len(result0) == n
 //@   ensures err == nil ==> c.br.$pos == old(c.br.$pos) + n
 //@   ensures forall k int :: 0 <= k && k < len(result0) ==> result0[k] == uf_u8_in(c.br, old(c.br.$pos) + k)
@@ -30,7 +30,7 @@ package webtransport
 //@ func (*Conn).advanceFrame()
 //@   props C14, C15, C10, C09
 //@   requires c != nil && c.br != nil && c.session != nil && c.readRemaining >= 0 && c.readLength >= 0
-//@   modifies c.readRemaining, c.readLength, c.br.$pos, c.br.$buffered
+//@   modifies c.readRemaining, c.readLength, c.br.$pos, c.br.$buffered, Mem(c.br.$peek)
 //@   let p0 = old(c.br.$pos) + old(c.readRemaining)
 //@   let b0 = uf_u8_in(c.br, p0)
 //@   let n7 = int64(b0 & 0x7f)
@@ -49,7 +49,7 @@ package webtransport
 //@   props C15, C09
 //@   requires c != nil && c.br != nil && c.session != nil && c.readRemaining >= 0 && c.readErrCount < 999
 //@   requires c.reader == nil || typeis(c.reader, *messageReader)
-//@   modifies c.reader, c.messageReader, c.readLength, c.readErr, c.readErrCount, c.readRemaining, c.br.$pos, c.br.$buffered
+//@   modifies c.reader, c.messageReader, c.readLength, c.readErr, c.readErrCount, c.readRemaining, c.br.$pos, c.br.$buffered, Mem(c.br.$peek)
 //@   loop 1 invariant c.readRemaining >= 0 && c.readLength >= 0
 //@   loop 1 invariant old(c.readErr) != nil ==> c.readErr == old(c.readErr)
 //@   ensures [C15.sticky]  old(c.readErr) != nil ==> err == old(c.readErr) && c.readErr == old(c.readErr) && r == nil
@@ -61,8 +61,8 @@ package webtransport
 
 //@ func (*messageReader).Read(b)
 //@   props C15, C09
-//@   requires r != nil && r.c != nil && r.c.br != nil && r.c.readRemaining >= 0
-//@   modifies r.c.messageReader, r.c.readErr, r.c.readRemaining, r.c.br.$pos, r.c.br.$buffered, Mem(b)
+//@   requires r != nil && r.c != nil && r.c.br != nil && r.c.readRemaining >= 0 && backing(b) != r.c.br.$peek
+//@   modifies r.c.messageReader, r.c.readErr, r.c.readRemaining, r.c.br.$pos, r.c.br.$buffered, Mem(b), Mem(r.c.br.$peek)
 //@   ensures [C15.nomore]  0 <= result0 && result0 <= len(b) && result0 <= old(r.c.readRemaining)
 //@   ensures [C15.dec]     r.c.readRemaining == old(r.c.readRemaining) - result0 && r.c.readRemaining >= 0
 //@   ensures [C15.bytes]   forall k int :: 0 <= k && k < result0 ==> b[k] == uf_u8_in(r.c.br, old(r.c.br.$pos) + k)
